@@ -98,7 +98,8 @@ type impl struct {
 	seenOnInc        map[string]string // incarnation/sequence -> chunk as reported
 	dupSeqs          map[uint32]int    // sequence numbers transmitted twice on one transport (copies still to be matched by an extra ack)
 	ackedOnce        map[string]bool
-	bufBytes         int // oracle: payload bytes written since the last chunk was cut
+	autoAcked        bool // the broker acknowledged by itself during this op (kill*, close): every copy of a chunk got its own ack
+	bufBytes         int  // oracle: payload bytes written since the last chunk was cut
 	sizeViolation    string
 }
 
@@ -331,7 +332,7 @@ func (i *impl) report() string {
 	sort.Strings(sh)
 	// a chunk that went out twice (see above) is acknowledged twice by a broker that acknowledges what it receives: the second,
 	// identical result of such a chunk is counted, not reported
-	if len(i.dupSeqs) > 0 {
+	if len(i.dupSeqs) > 0 && i.autoAcked {
 		var dd []string
 		seenAck := map[string]bool{}
 		for _, a := range ah {
@@ -542,7 +543,9 @@ func (i *impl) exec(op string) string {
 			i.results++
 		}
 		i.closed = true
+		i.autoAcked = true
 		out := i.report()
+		i.autoAcked = false
 		if err != nil {
 			return "err " + err.Error() + " " + out
 		}
